@@ -39,7 +39,7 @@ typedef amgcl::amg<B, amgcl::coarsening::smoothed_aggregation, amgcl::relaxation
 static vr::opstream S;
 
 struct problem {
-    std::shared_ptr<crsd> A, A2, Abad; vec f1, f2, guess, xstar, fnan, zero; int n;
+    std::shared_ptr<crsd> A, A2, Abad; vec f1, f2, guess, xstar, fnan, zero, funit; int n;
 };
 static problem make_problem(vr::rng &g) {
     problem p; p.A = vr::poisson2d(g.range(7, 10), g.range(6, 9)); p.n = p.A->nrows;
@@ -48,6 +48,7 @@ static problem make_problem(vr::rng &g) {
     int n = p.n; p.f1.resize(n); p.f2.resize(n); p.guess.resize(n); p.zero.assign(n, 0.0);
     for (int i = 0; i < n; ++i) { p.f1[i] = g.unit() + 0.1; p.f2[i] = std::sin(0.37 * i) + g.unit(); p.guess[i] = g.unit() - 0.5; }
     p.fnan = p.f1; p.fnan[n / 2] = std::nan("");
+    p.funit.assign(n, 0.0); p.funit[(2 * n) / 3] = 1.0;      // point source: exactly zero almost everywhere
     // exact solution of A x = f1 by dense elimination in long double
     std::vector<long double> M((size_t)n * n, 0.0L), b(p.f1.begin(), p.f1.end());
     for (int i = 0; i < n; ++i) for (ptrdiff_t q = p.A->ptr[i]; q < p.A->ptr[i+1]; ++q) M[(size_t)i * n + p.A->col[q]] += p.A->val[q];
@@ -102,6 +103,7 @@ struct krylov : object {
             std::tuple<size_t, double> r;
             if (kind == "solve") r = Sv(*p.A, P, p.f1, X);
             else if (kind == "solve_guess") { X = p.guess; r = Sv(*p.A, P, p.f2, X); }
+            else if (kind == "solve_unit") r = Sv(*p.A, P, p.funit, X);
             else if (kind == "solve_mtx") r = Sv(*p.A2, P, p.f1, X);
             else if (kind == "zero_rhs") { X = p.guess; r = Sv(*p.A, P, p.zero, X); }
             else if (kind == "converged_guess") { X = p.xstar; r = Sv(*p.A, P, p.f1, X); }
@@ -121,7 +123,22 @@ struct precond_only : object {      // amg / as_preconditioner: apply()
     bool has_tol() const override { return false; }
     outcome call(const std::string &kind, const problem &p, vec *xbuf = 0) override {
         outcome o; vec own; vec &X = xbuf ? *xbuf : own; X.assign(p.n, 7.25);
-        const vec &f = kind == "solve" || kind == "converged_guess" || kind == "throw_inside" || kind == "throw_late" ? p.f1 : kind == "zero_rhs" ? p.zero : kind == "nan_rhs" || kind == "poison_inside" ? p.fnan : p.f2;
+        const vec &f = kind == "solve" || kind == "converged_guess" || kind == "throw_inside" || kind == "throw_late" ? p.f1 : kind == "zero_rhs" ? p.zero : kind == "solve_unit" ? p.funit : kind == "nan_rhs" || kind == "poison_inside" ? p.fnan : p.f2;
+        try { P.apply(f, X); } catch (const std::exception &) { o.threw = true; }
+        o.x = X; return o;
+    }
+};
+// preconditioner-only object built from a scaled copy of the matrix (the Chebyshev recurrence depends on
+// the spectrum estimate, hence on the scaling, through expressions like alpha*d - 1)
+template <class Precond>
+struct precond_scaled : object {
+    std::shared_ptr<crsd> As; Precond P;
+    static std::shared_ptr<crsd> scaled(const problem &p, double s) { auto M = std::make_shared<crsd>(*p.A); amgcl::backend::scale(*M, s); return M; }
+    precond_scaled(const problem &p, double s) : As(scaled(p, s)), P(*As, pprm<Precond>(0)) {}
+    bool has_tol() const override { return false; }
+    outcome call(const std::string &kind, const problem &p, vec *xbuf = 0) override {
+        outcome o; vec own; vec &X = xbuf ? *xbuf : own; X.assign(p.n, 7.25);
+        const vec &f = kind == "solve" || kind == "converged_guess" || kind == "throw_inside" || kind == "throw_late" ? p.f1 : kind == "zero_rhs" ? p.zero : kind == "solve_unit" ? p.funit : kind == "nan_rhs" || kind == "poison_inside" ? p.fnan : p.f2;
         try { P.apply(f, X); } catch (const std::exception &) { o.threw = true; }
         o.x = X; return o;
     }
@@ -131,7 +148,7 @@ struct skyline : object {
     bool has_tol() const override { return false; }
     outcome call(const std::string &kind, const problem &p, vec *xbuf = 0) override {
         outcome o; vec own; vec &X = xbuf ? *xbuf : own; X.assign(p.n, -3.5);
-        const vec &f = kind == "solve" || kind == "converged_guess" || kind == "throw_inside" || kind == "throw_late" ? p.f1 : kind == "zero_rhs" ? p.zero : kind == "nan_rhs" || kind == "poison_inside" ? p.fnan : p.f2;
+        const vec &f = kind == "solve" || kind == "converged_guess" || kind == "throw_inside" || kind == "throw_late" ? p.f1 : kind == "zero_rhs" ? p.zero : kind == "solve_unit" ? p.funit : kind == "nan_rhs" || kind == "poison_inside" ? p.fnan : p.f2;
         lu(f, X); o.x = X; return o;
     }
 };
@@ -144,6 +161,7 @@ struct bundled : object {           // make_solver: operator()(rhs, x) and opera
             std::tuple<size_t, double> r;
             if (kind == "solve" || kind == "throw_inside" || kind == "throw_late") r = ms(p.f1, X);
             else if (kind == "solve_guess") { X = p.guess; r = ms(p.f2, X); }
+            else if (kind == "solve_unit") r = ms(p.funit, X);
             else if (kind == "solve_mtx") r = ms(*p.A2, p.f1, X);
             else if (kind == "zero_rhs") { X = p.guess; r = ms(p.zero, X); }
             else if (kind == "converged_guess") { X = p.xstar; r = ms(p.f1, X); }
@@ -176,6 +194,10 @@ static std::vector<std::pair<std::string, factory>> kinds() {
     v.push_back({"as_preconditioner-gauss_seidel", [](const problem &p) { return std::unique_ptr<object>(new precond_only<amgcl::relaxation::as_preconditioner<B, amgcl::relaxation::gauss_seidel>>(p)); }});
     v.push_back({"amg-sa-spai0-relaxed-coarse", [](const problem &p) { g_relax_coarse = true; std::unique_ptr<object> o(new precond_only<AMG1>(p)); g_relax_coarse = false; return o; }});
     { bicgstab<B>::params sp; v.push_back({"bicgstab-relaxed-coarse", [sp](const problem &p) { g_relax_coarse = true; std::unique_ptr<object> o(new krylov<bicgstab<B>, AMG1>(p, sp, true)); g_relax_coarse = false; return o; }}); }
+    { static const double sc[] = {1.0, 1.1, 1.37, 2.3, 0.77, 3.3, 0.013, 57.0};
+      for (int k = 0; k < 8; ++k) { double f = sc[k];
+        v.push_back({"as_preconditioner-chebyshev-scale" + std::to_string(k), [f](const problem &p) { return std::unique_ptr<object>(new precond_scaled<amgcl::relaxation::as_preconditioner<B, amgcl::relaxation::chebyshev>>(p, f)); }});
+        v.push_back({"amg-sa-chebyshev-scale" + std::to_string(k), [f](const problem &p) { return std::unique_ptr<object>(new precond_scaled<AMG3>(p, f)); }}); } }
     v.push_back({"skyline_lu", [](const problem &p) { return std::unique_ptr<object>(new skyline(p)); }});
     { typedef amgcl::make_solver<AMG1, gmres<B>> MS; MS::params prm; prm.solver.M = 5; prm.precond.coarse_enough = 8;
       v.push_back({"make_solver-amg-gmres", [prm](const problem &p) { return std::unique_ptr<object>(new bundled<MS>(p, prm)); }}); }
